@@ -589,3 +589,56 @@ fn compare_mut(rep: &mut Report, what: &str, rtype: &str, ctx: &Vec<String>, via
         (Err(e), Ok(())) => rep.fail("oracle", &format!("C08/{}-refused-but-direct-calls-succeed/{}", what, rtype), ctx.clone(), "direct calls succeed", &format!("query: {}", e)),
     }
 }
+
+
+/// case-insensitive TEXT constraints on texts with upper- and lower-case letters inside and outside ASCII: the
+/// constraint as first constraint (index-driven), as a later constraint (filter), through the iterator API, and the
+/// plain-string oracle all give the same annotations
+pub fn check_nocase(rep: &mut Report) {
+    let words = ["\u{c9}cole", "des", "\u{e9}coles", "\u{c9}COLE", "Normale", "\u{e9}cole", "NORMALE", "\u{d6}l", "\u{f6}L", "stra\u{df}e"];
+    let text = words.join(" ");
+    let mut store = new_store();
+    if store.add_resource(TextResourceBuilder::new().with_id("r").with_text(text.clone())).is_err() { return; }
+    let mut pos = 0usize;
+    for (i, w) in words.iter().enumerate() {
+        let n = w.chars().count();
+        let _ = store.annotate(AnnotationBuilder::new().with_id(format!("a{}", i)).with_target(SelectorBuilder::textselector("r", Offset::simple(pos, pos + n))).with_data("s", "k", if i % 2 == 0 { "even" } else { "odd" }));
+        pos += n + 1;
+    }
+    let store = &store;
+    let ids = |q: &str| -> Result<Vec<String>, String> {
+        guarded(std::panic::AssertUnwindSafe(|| Query::try_from(q).and_then(|q| store.query(q)).map(|it| { let mut v: Vec<String> = it.filter_map(|row| row.iter().next().and_then(|x| if let QueryResultItem::Annotation(a) = x { a.id().map(|s| s.to_string()) } else { None })).collect(); v.sort(); v }).map_err(|e| format!("{}", e)))).and_then(|r| r)
+    };
+    for needle in ["\u{e9}cole", "\u{c9}COLE", "\u{c9}cole", "normale", "NORMALE", "des", "DES", "\u{f6}l", "\u{d6}L", "stra\u{df}e"] {
+        for parity in ["even", "odd"] {
+            let mut want: Vec<String> = words.iter().enumerate().filter(|(i, w)| w.to_lowercase() == needle.to_lowercase() && (if i % 2 == 0 { "even" } else { "odd" }) == parity).map(|(i, _)| format!("a{}", i)).collect();
+            want.sort();
+            let mut want_all: Vec<String> = words.iter().enumerate().filter(|(_, w)| w.to_lowercase() == needle.to_lowercase()).map(|(i, _)| format!("a{}", i)).collect();
+            want_all.sort();
+            let forms: Vec<(&str, String, &Vec<String>)> = vec![
+                ("first-and-only", format!("SELECT ANNOTATION ?a WHERE TEXT AS NOCASE \"{}\";", needle), &want_all),
+                ("first", format!("SELECT ANNOTATION ?a WHERE TEXT AS NOCASE \"{}\"; DATA \"s\" \"k\" = \"{}\";", needle, parity), &want),
+                ("later", format!("SELECT ANNOTATION ?a WHERE DATA \"s\" \"k\" = \"{}\"; TEXT AS NOCASE \"{}\";", parity, needle), &want),
+            ];
+            for (name, q, w) in forms {
+                rep.case(Some(&q));
+                rep.count("nocase:query");
+                let got = ids(&q);
+                if got.as_ref().ok() != Some(w) { rep.fail(if matches!(&got, Err(m) if m.contains("panic")) { "panic" } else { "oracle" }, &format!("C08/text-nocase/{}-constraint", name), vec![format!("query: text {:?} with one annotation per word", text), q.clone()], &format!("{:?}", w), &format!("{:?}", got)); }
+            }
+            let got = guarded(std::panic::AssertUnwindSafe(|| { let mut v: Vec<String> = store.annotations().filter_text(needle.to_string(), false, " ").filter_map(|a| a.id().map(|s| s.to_string())).collect(); v.sort(); v }));
+            if got.as_ref().ok() != Some(&want_all) { rep.fail(if got.is_err() { "panic" } else { "oracle" }, "C08/text-nocase/iterator", vec![format!("iterator: annotations().filter_text({:?}, case-insensitive) over text {:?}", needle, text)], &format!("{:?}", want_all), &format!("{:?}", got)); }
+            // the borrowed variants (documented: the text must be lower-cased by the caller) and the text selection iterator
+            let lower = needle.to_lowercase();
+            let got = guarded(std::panic::AssertUnwindSafe(|| { let mut v: Vec<String> = store.annotations().filter_text_byref(lower.as_str(), false, " ").filter_map(|a| a.id().map(|s| s.to_string())).collect(); v.sort(); v }));
+            if got.as_ref().ok() != Some(&want_all) { rep.fail(if got.is_err() { "panic" } else { "oracle" }, "C08/text-nocase/iterator-byref", vec![format!("iterator: annotations().filter_text_byref({:?}, case-insensitive) over text {:?}", lower, text)], &format!("{:?}", want_all), &format!("{:?}", got)); }
+            let want_ts: Vec<(usize, usize)> = { let mut p = 0usize; let mut v = vec![]; for w in words.iter() { let n = w.chars().count(); if w.to_lowercase() == lower { v.push((p, p + n)); } p += n + 1; } v };
+            for (name, got) in [
+                ("textselections-filter_text", guarded(std::panic::AssertUnwindSafe(|| { let mut v: Vec<(usize, usize)> = store.annotations().textselections().filter_text(needle.to_string(), false).map(|t| (t.begin(), t.end())).collect(); v.sort(); v.dedup(); v }))),
+                ("textselections-filter_text_byref", guarded(std::panic::AssertUnwindSafe(|| { let mut v: Vec<(usize, usize)> = store.annotations().textselections().filter_text_byref(lower.as_str(), false).map(|t| (t.begin(), t.end())).collect(); v.sort(); v.dedup(); v }))),
+            ] {
+                if got.as_ref().ok() != Some(&want_ts) { rep.fail(if got.is_err() { "panic" } else { "oracle" }, &format!("C08/text-nocase/{}", name), vec![format!("iterator: annotations().textselections().{}({:?}, case-insensitive) over text {:?}", name, needle, text)], &format!("{:?}", want_ts), &format!("{:?}", got)); }
+            }
+        }
+    }
+}
